@@ -65,7 +65,8 @@ def parse_harness(out):
             for kv in tk[3:]:
                 k, v = kv.split('=')
                 cur[k] = v
-            for k in ('kind', 'sys', 'nw', 'allowInterp', 'everyStep', 'limit', 'projInterp'): cur[k] = int(cur[k])
+            for k in ('kind', 'sys', 'nw', 'allowInterp', 'everyStep', 'limit', 'projInterp', 'useInf', 'loose'):
+                if k in cur: cur[k] = int(cur[k])
             for k in ('final', 'tStart', 'acc', 'ctol'):
                 if k in cur: cur[k] = fx(cur[k])
             scripts.append(cur)
@@ -79,6 +80,8 @@ def parse_harness(out):
             call['ret'] = {'status': tk[1], 't': fx(tk[2]), 'adv': fx(tk[3]), 'over': int(tk[4]), 'w0': fx(tk[5]), 'w1': fx(tk[6]),
                            'qerr': fx(tk[7]), 'uerr': fx(tk[8]), 'tol': fx(tk[9]), 'interp': int(tk[10]),
                            'aqerr': fx(tk[11]) if len(tk) > 12 else 0.0, 'auerr': fx(tk[12]) if len(tk) > 12 else 0.0}
+            if len(tk) > 16:    # infinity norms of the same four error vectors
+                call['ret'].update({'qerr_inf': fx(tk[13]), 'uerr_inf': fx(tk[14]), 'aqerr_inf': fx(tk[15]), 'auerr_inf': fx(tk[16])})
         elif tk[0] == 'THROW': call['throw'] = tk[1]
         elif tk[0] == 'REINIT':
             cur['ev'].append({'type': 'reinit', 'low': int(tk[1]), 'term': int(tk[2])})
@@ -352,6 +355,12 @@ def report_pred_failures(ctx, pred_fail):
     for sc, (clause, desc, i) in pred_fail:
         key = 'impl:%s:%s' % (clause, sc['name'])
         if sc['kind'] == 8 and clause in CP_KNOWN: key = CP_KNOWN[clause]
+        if clause == 'no_pending_time_inside_event_window' and 'report time' in desc and sc['kind'] != 8:
+            # the window was localized by an EARLIER call (this call took no step that found an event): the request violated
+            # the hypothesis req_ok -- that is the known finding, not the clause proved under req_ok
+            e = sc['ev'][i]
+            if any(t == 'C19.enter' for t, v in e['recs']) and not any(t == 'C19.step' and int(v[4]) == 1 for t, v in e['recs']):
+                key = 'report-inside-earlier-localized-window'
         if key in seen: continue
         seen.add(key)
         ctx.report(key, '%s violates C19 clause %s: %s' % (sc['name'], clause, desc),
